@@ -106,14 +106,17 @@ example : ((genCent ⟨⟨true, true, false⟩, false, none, 1/2, 100⟩ ⟨0, 0
 /-! ## at most one galaxy per host -/
 
 /-- **at_most_one.**  The slices of different tracers are disjoint (a host cannot yield galaxies of
-two tracers), and in a catalogue the LRG, ELG and QSO centrals together with the rejected hosts
-account for every host exactly once. -/
+two tracers), and in a catalogue the LRG, ELG and QSO centrals (satellites) together with the rejected
+hosts (particles) account for every row exactly once. -/
 theorem at_most_one (en : Enabled) (w : Widths) (r : Rat) :
     (∀ T₁ T₂ : Tracer, inSlice en w T₁ r → inSlice en w T₂ r → T₁ = T₂) ∧
     (∀ (cfg : Cfg) (aC : Tri Rat) (hosts : List Host),
       ((genCent cfg aC hosts).gals .LRG).length + ((genCent cfg aC hosts).gals .ELG).length +
-        ((genCent cfg aC hosts).gals .QSO).length + ((genCent cfg aC hosts).keep.count 0) = hosts.length) := by
-  constructor
+        ((genCent cfg aC hosts).gals .QSO).length + ((genCent cfg aC hosts).keep.count 0) = hosts.length) ∧
+    (∀ (cfg : Cfg) (aS : Tri Rat) (pks : List (Part × Int)),
+      ((genSats cfg aS pks).gals .LRG).length + ((genSats cfg aS pks).gals .ELG).length +
+        ((genSats cfg aS pks).gals .QSO).length + ((genSats cfg aS pks).keep.count 0) = pks.length) := by
+  refine ⟨?_, ?_, ?_⟩
   · intro T₁ T₂ h₁ h₂
     have e₁ := (keepCode_eq_code_iff en w T₁ r).2 h₁
     have e₂ := (keepCode_eq_code_iff en w T₂ r).2 h₂
@@ -121,12 +124,14 @@ theorem at_most_one (en : Enabled) (w : Widths) (r : Rat) :
   · intro cfg aC hosts
     simp only [genCent_gals, List.length_map]
     simp only [genCent, Tracer.code]
-    induction hosts with
-    | nil => simp
-    | cons h hs ih =>
-      simp only [List.filter_cons, List.map_cons, List.count_cons, List.length_cons]
-      rcases keepCode_cases cfg.en h.w h.r with h0 | h0 | h0 | h0 <;>
-        simp [h0] <;> omega
+    have := partition_count hosts (fun h => keepCode cfg.en h.w h.r) (fun x _ => keepCode_cases _ _ _)
+    exact this
+  · intro cfg aS pks
+    simp only [genSats_gals, List.length_map]
+    simp only [genSats, Tracer.code]
+    have := partition_count pks (fun pk => keepCode cfg.en (satWidths pk.1 pk.2) pk.1.r)
+      (fun x _ => keepCode_cases _ _ _)
+    exact this
 
 example : inSlice ⟨true, true, false⟩ ⟨1/2, 1/2, 0⟩ .LRG (1/2) ∧
     ¬ inSlice ⟨true, true, false⟩ ⟨1/2, 1/2, 0⟩ .ELG (1/2) := by
